@@ -7,7 +7,7 @@ up as a differing result).  F2 (= C13-N1): line numbers translate with the start
 Scratch state: C11-G1.  F3: whole pipeline on tiny A, B.
 """
 from vfy.lemma import lemma, P
-from vfy.lemmas.common import S, cp_md, all_ok, all_in, ALPH14, by, fixed, ast_of
+from vfy.lemmas.common import S, cp_md, all_ok, all_in, ALPH14, by, fixed, ast_of, cell, cells
 from mistletoe import block_token as bt, block_tokenizer as btk, token as tokmod
 
 ASSUMPTIONS = ['C05: composition parse(A+blank+B) = parse(A) ++ shift(parse(B)) from F1 (frame), F2 (shift), C11-G1 (scratch) is prose']
@@ -55,7 +55,7 @@ def _freeze(r):
     return r
 
 
-@lemma('F1.frame', 'C05', quick=[{'frame': f, 'k': 1} for f in sorted(FRAMES)],
+@lemma('F1.frame', 'C05', quick=cells('rcell', [' \t', '#>-*+=|`~<[', '0123456789'], [{'frame': f, 'k': 1} for f in sorted(FRAMES)]),
        thorough=[{'frame': f, 'k': 1, 'kr': 2, 'timeout': 3000} for f in sorted(FRAMES)] + [{'frame': f, 'k': 2, 'kr': 1, 'timeout': 3000} for f in sorted(FRAMES)], timeout=900, per_path=90,
        covers=['block_tokenizer.py:tokenize_block', 'block_token.py:Paragraph.read', 'block_token.py:Heading.read',
                'block_token.py:ThematicBreak.read', 'block_token.py:Quote.read', 'block_token.py:Table.read'],
@@ -64,7 +64,7 @@ def _freeze(r):
 def f1_frame(c1: int, c2: int, r1: int, r2: int) -> bool:
     """
     pre: all_ok(cp_md, P('k'), c1, c2) and no_nl(P('k'), c1, c2)
-    pre: all_ok(cp_md, P('kr', 1), r1, r2) and no_nl(P('kr', 1), r1, r2)
+    pre: cell(r1, 'rcell') and all_ok(cp_md, P('kr', 1), r1, r2) and no_nl(P('kr', 1), r1, r2)
     post: _
     """
     x = S(P('k'), c1, c2)
@@ -95,7 +95,7 @@ def defines_link(frame, k, c1, c2, c3):
        note='A, B over the 14-character alphabet; side conditions of the property as pre-conditions evaluated on the real parse of A')
 def f3_pipeline(a1: int, a2: int, b1: int, b2: int) -> bool:
     """
-    pre: all_in(ALPH14, P('ka'), a1, a2) and all_in(ALPH14, P('kb'), b1, b2) and fixed(a1, 'a1')
+    pre: fixed(a1, 'a1') and all_in(ALPH14, P('ka'), a1, a2) and all_in(ALPH14, P('kb'), b1, b2)
     post: _
     """
     from mistletoe import Document
